@@ -18,18 +18,25 @@ RULE = (
     "untied_rank_, to_series(untied=True) values+index, has_ties_, ties_.  (b) a RanksComparator of 2-5 rankings over the "
     "SAME alternatives, each listed in its own random order, with and without ties, built by the constructor or mkrank_cmp; "
     "observed: to_dataframe(untied=False/True) by label, corr/cov/r2_score/distance (both untied settings); plus a few "
-    "comparators the constructor must refuse.  Non-trivial: a ranking of length >= 2; a comparator in which two rankings "
+    "comparators the constructor must refuse; plus comparators in which one ranking is a RE-LISTED COPY of another (same "
+    "rank for every alternative, another listing order, with and without ties).  Every cell (i, j) of corr/cov/r2_score/"
+    "distance is compared (1e-9) with the statistic recomputed in the harness from columns i and j of the implementation's "
+    "own to_dataframe(untied=...); two rankings that give every alternative the same rank must show the self-comparison "
+    "value.  Non-trivial: a ranking of length >= 2; a comparator in which two rankings "
     "list the alternatives in different orders or one has ties.  Distinct by case hash."
 )
 ASSUMPTIONS = [
     "np.argsort(kind='stable') modelled as a stable insertion sort of positions (validated here on every case)",
     "pandas aligns Series by index label; row order of DataFrame.from_dict = pandas.core.indexes.api.union_indexes "
     "(same order everywhere -> kept, otherwise sorted union) — modelled, validated here",
-    "the statistics in corr/cov/r2_score/distance are pandas/sklearn/scipy: only the shape, the labels and the diagonal are checked",
+    "the statistics in corr/cov/r2_score/distance are pandas/sklearn/scipy (Series.corr / Series.cov / "
+    "sklearn.metrics.r2_score(earlier column, later column), filled symmetrically / scipy hamming): the harness recomputes "
+    "every cell with the same library function from the implementation's own label-aligned frame",
 ]
 PARTIAL = (
-    "the values of the pairwise statistics are external (pandas/sklearn/scipy) and not modelled; diagonal cells that are NaN "
-    "for a legitimate reason (constant ranking: zero variance; a single alternative) are skipped and counted"
+    "the values of the pairwise statistics are external (pandas/sklearn/scipy) and not modelled in Lean (recomputed in the "
+    "harness from the aligned frame instead); cells that are NaN for a legitimate reason (constant ranking: zero variance; "
+    "a single alternative) are skipped and counted"
 )
 EXHAUSTIVE = True
 
@@ -92,6 +99,36 @@ def _cmp_case(rng, max_alts=9):
     return {"kind": "cmp", "via": via, "ranks": ranks}
 
 
+def _relisted_cmp_case(rng, max_alts=9):
+    """a comparator in which at least one ranking is a re-listed copy of another one: every alternative keeps
+    its rank, only the order in which the alternatives are listed changes"""
+    c = _cmp_case(rng, max_alts)
+    while len(c["ranks"][0]["alts"]) < 2:
+        c = _cmp_case(rng, max_alts)
+    rs = c["ranks"]
+    k = rng.randint(1, max(1, len(rs) - 1))  # how many copies
+    for _ in range(k):
+        src, dst = rng.sample(range(len(rs)), 2)
+        by_alt = dict(zip(rs[src]["alts"], rs[src]["values"]))
+        alts = list(rs[src]["alts"])
+        for _try in range(8):
+            rng.shuffle(alts)
+            if alts != rs[src]["alts"]:
+                break
+        rs[dst]["alts"] = alts
+        rs[dst]["values"] = [by_alt[a] for a in alts]
+    if rng.random() < 0.3:  # exactly two rankings: a ranking and its re-listed copy
+        src = rng.randrange(len(rs))
+        dst = rng.choice([j for j in range(len(rs)) if j != src])
+        by_alt = dict(zip(rs[src]["alts"], rs[src]["values"]))
+        rs[dst]["values"] = [by_alt[a] for a in rs[dst]["alts"]]
+        c["ranks"] = [rs[min(src, dst)], rs[max(src, dst)]]
+        if c["via"] == "ctor" and c["ranks"][0]["name"] == c["ranks"][1]["name"]:
+            c["ranks"][1]["name"] += "'"
+    c["relisted"] = True
+    return c
+
+
 def _bad_cmp_case(rng):
     c = _cmp_case(rng, 6)
     c["via"] = "ctor"
@@ -124,6 +161,8 @@ def gen(ctx):
         cases.append(_rank_case(rng, random_dense(rng, n, rng.choice(["heavy", "heavy", "some", "none"]))))
     for i in range(ctx.n(160, 3000)):
         cases.append(_cmp_case(rng, ctx.n(9, 15)))
+    for i in range(ctx.n(60, 800)):
+        cases.append(_relisted_cmp_case(rng, ctx.n(9, 15)))
     for i in range(ctx.n(12, 120)):
         cases.append(_bad_cmp_case(rng))
     return cases
@@ -136,6 +175,8 @@ def search_gen(ctx):
         cases.append(_rank_case(rng, random_dense(rng, rng.randint(1, 14), rng.choice(["heavy", "some", "none"]))))
     for i in range(600):
         cases.append(_cmp_case(rng, 9))
+    for i in range(200):
+        cases.append(_relisted_cmp_case(rng, 9))
     return cases
 
 
@@ -303,6 +344,35 @@ def _close(a, b):
     return abs(a - b) <= TOL * max(1.0, abs(b))
 
 
+STAT_LABEL = {"corr": "corr", "cov": "cov", "r2": "r2_score", "dist": "distance"}
+
+
+def recompute_tables(frame):
+    """every pairwise statistic recomputed from the columns of a label-aligned frame (the implementation's own
+    to_dataframe): {stat: [[value | None (NaN)]]}; None when the frame has holes"""
+    import pandas as pd
+    from scipy.spatial import distance as sp_distance
+    from sklearn import metrics as skl_metrics
+
+    cells = frame["cells"]
+    if any(x is None for row in cells for x in row):
+        return None
+    m = len(frame["cols"])
+    cols = [[row[j] for row in cells] for j in range(m)]
+    series = [pd.Series(c, index=frame["rows"], dtype=float) for c in cols]
+    out = {k: [[None] * m for _ in range(m)] for k in STAT_LABEL}
+    with warnings.catch_warnings(), np.errstate(all="ignore"):
+        warnings.simplefilter("ignore")
+        for i in range(m):
+            for j in range(m):
+                lo, hi = min(i, j), max(i, j)  # r2_score(y_true=earlier ranking, y_pred=later one), filled both ways
+                out["corr"][i][j] = _num(series[i].corr(series[j]))
+                out["cov"][i][j] = _num(series[i].cov(series[j]))
+                out["r2"][i][j] = _num(skl_metrics.r2_score(cols[lo], cols[hi]))
+                out["dist"][i][j] = _num(sp_distance.hamming(cols[i], cols[j]))
+    return out
+
+
 # --------------------------------------------------------------------------- model side
 
 
@@ -404,9 +474,10 @@ def judge(case, obs, replies):
                 break
         # pairwise statistics: square over the names, self-comparison on the diagonal
         diag = diag_expectations(case, u)
+        recomputed = recompute_tables(fr)
         for stat in ("corr", "cov", "r2", "dist"):
             t = o[stat]
-            sl = f"{ {'corr': 'corr', 'cov': 'cov', 'r2': 'r2_score', 'dist': 'distance'}[stat] }(untied={u})"
+            sl = f"{STAT_LABEL[stat]}(untied={u})"
             if t["index"] != names or t["columns"] != names or len(t["values"]) != len(names) or \
                     any(len(row) != len(names) for row in t["values"]):
                 prop(f"{sl} is not square over the ranking names", names, [t["index"], t["columns"]])
@@ -417,6 +488,32 @@ def judge(case, obs, replies):
                     continue  # NaN is legitimate here (constant ranking / single alternative): skipped, counted in tags
                 if got is None or not _close(got, exp):
                     prop(f"{sl}[{nme!r}][{nme!r}] is not the self-comparison value", exp, got)
+                    break
+            # two rankings that give every alternative the same rank (a ranking and a re-listed copy of it)
+            # compare like a ranking with itself
+            bad = False
+            for i in range(len(names)):
+                for j in range(len(names)):
+                    if i == j or cols[i] != cols[j] or diag[stat][i] is None:
+                        continue
+                    got = t["values"][i][j]
+                    if got is None or not _close(got, diag[stat][i]):
+                        prop(f"{sl}[{names[i]!r}][{names[j]!r}]: the two rankings give every alternative the same rank "
+                             f"(listed in another order) but the cell is not the self-comparison value", diag[stat][i], got)
+                        bad = True
+                        break
+                if bad:
+                    break
+            # every cell = the statistic of the two columns of the implementation's own label-aligned frame
+            if recomputed is None or bad:
+                continue
+            for i, j in itertools.product(range(len(names)), repeat=2):
+                exp, got = recomputed[stat][i][j], t["values"][i][j]
+                if exp is None:
+                    continue  # NaN statistic (zero variance / one alternative): skipped
+                if got is None or not _close(got, exp):
+                    prop(f"{sl}[{names[i]!r}][{names[j]!r}] is not the statistic of columns {names[i]!r} and {names[j]!r} "
+                         f"of to_dataframe(untied={u}) (rankings aligned by alternative name)", exp, got)
                     break
         # correspondence: the Lean frame
         if "err" in reply or "driver_error" in reply:
@@ -453,6 +550,9 @@ def tags(case, obs):
         return t + ["cmp:malformed-accepted"]
     t.append("cmp:rankings=%d" % len(case["ranks"]))
     t.append("cmp:different-orders" if _different_orders(case) else "cmp:same-order")
+    if any(a["alts"] != b["alts"] and dict(zip(a["alts"], a["values"])) == dict(zip(b["alts"], b["values"]))
+           for a, b in itertools.combinations(case["ranks"], 2)):
+        t.append("cmp:relisted-copy")
     if any(len(set(r["values"])) != len(r["values"]) for r in case["ranks"]):
         t.append("cmp:has-ties")
     for u in (False, True):
